@@ -308,6 +308,7 @@ fn mscale(r: &mut Prng) -> f64 {
         1 => 0.0,
         2 => 1e-6,
         3 => 1e6,
+        4 => *r.pick(&[1e18, 1e30, 1e300]),
         _ => 10f64.powf((r.unit() - 0.5) * 6.0),
     }
 }
